@@ -156,4 +156,19 @@ PROPS = {
                 "per-request protocol and prefix).",
         "assumptions": ["duplicate mount patterns (ServeMux panics by contract) are not generated"],
     },
+    "C17": {
+        "pkg": "c17",
+        "stages": [{"run": "^TestProp", "quick": (12000, 4), "thorough": (250000, 16)}],
+        "technique": "property-based testing (rapid) plus exhaustive enumeration of read partitions: write/read round trip of the exported stream codecs under a scripted fragmenting reader with a remainder invariant",
+        "level_text": "Generated and exhaustively enumerated read schedules against the exported CodecProto/CodecJSON and the HttpBody chunker: the messages read back equal the messages "
+                      "written, the bytes after each message are exactly the unread remainder, truncation inside a message is a non-EOF error, over-limit and absurd length "
+                      "prefixes are errors and never panic. Exploration (random part) with a completely enumerated sub-space (all partitions of short streams).",
+        "level_note": "The caller follows the documented carry-over discipline (dst[n:] becomes the next buf, copied into a buffer of drawn capacity); a final message returned together with io.EOF is accepted.",
+        "rule": "rapid draws codec, 0-6 messages (protobuf: sizes around 0/1/63..65/127..129/16384 and random; JSON: generated objects with braces, quotes and escapes inside "
+                "strings, optionally indented; HttpBody: uploads around multiples of the limit), or a hand-made 1-10 byte varint prefix (overlong, 2^31, 2^63, 2^64-1), a read script "
+                "(unconstrained / byte-wise / 1-8 drawn chunks incl. zero-length reads; last chunk with or without simultaneous EOF), initial and carry-over buffer capacities, a limit "
+                "around the message sizes and an optional truncation offset. TestPropExhaustive enumerates all 2^(n-1) partitions of 7 fixed streams. Non-trivial = raw prefix, "
+                "limit within +-1 of a size, truncation, carry-over into a call, or >=2 messages with a split inside a message; distinct = the full abstract case.",
+        "assumptions": ["limit >= 1", "JSON inputs are brace-balanced objects produced by WriteNext of valid JSON (the codec documents that it does not validate)"],
+    },
 }
